@@ -9,6 +9,21 @@ CHECKS = {
   text="Structural necessary conditions of 'exactly one response', decided on every path of the resolved program: each activation of an unanswered request ends in exactly one reply (done set, mutex held) or one successful hand-over to a backend; each arm of the client frame handler answers once; a matched backend reply is delivered to its request exactly once; a dying backend connection marks itself closing, then notifies every pending request; the retry loop has no cycle that does not advance the query plan; the lock-order graph is acyclic. This is the code's own argument for the property, checked for all paths rather than sampled; it is not an execution of schedules.",
   note="Trusted: go/types, go/ssa, VTA call graph (x/tools v0.29.0); library and stdlib semantics (sync.Map, channels); object-insensitive treatment of the request's fields. Not covered: scheduling, network, backend behaviour; the residual window in ClientConn.Send where a request stays registered after its write failed.",
   ref="DESIGN.md §4 C01"),
+ "C04": dict(
+  technique="static analysis: property simulation of the request's retry decision structure (type-switch arms x idempotency check x retry effect), provenance of stored prepared metadata, dominance guards",
+  text="Structural necessary conditions of 'no re-execution of non-idempotent requests', on every path: the error-result handler retries only in the read-timeout/unavailable/bootstrapping arms or after a positive idempotency check; connection loss re-sends only after a positive check; the check answers true only in state isIdempotent reached through a classifier verdict on that path; a batch is idempotent only if every child was classified idempotent; unknown prepared ids are not idempotent and stored verdicts come from the classifier with err==nil keyed by the backend's id; only PREPARE (and graph with the option) starts idempotent.",
+  note="Trusted: the classifier's verdict itself (C06), library message types, VTA call graph. Not covered: what a backend applied; custom RetryPolicy implementations.",
+  ref="DESIGN.md §4 C04"),
+ "C05": dict(
+  technique="static analysis: constant folding of the default policy's guards over a finite partition of inputs (decision table extraction), property simulation of decision->action mapping and of loop progress in the host walk",
+  text="The four decision functions of the default retry policy are compared with the documented table on every cell of a finite partition of their inputs (exhaustive because they only compare inputs with constants/each other); each error kind consults the documented policy method; RetryNext/RetrySame/ReturnError map to the documented action with one count increment; the host walk consumes each planned host (no skipped host, no cycle without QueryPlan.Next), ends in exactly one reply or hand-over, and the plan's Next is bounded by len(hosts).",
+  note="Trusted: library message field semantics. Not covered: attempt sequences as executions (which host answers), numeric attempt bounds beyond the structural progress argument, custom policies.",
+  ref="DESIGN.md §4 C05"),
+ "C15": dict(
+  technique="static analysis: structural rules over SSA (guard dominance, increment counting by path simulation, index-expression shape), copy-on-write taint of the published slice, atomic/lock discipline inventory",
+  text="Query plan structure decided statically: Next returns a host only under index < len(hosts), increments index exactly once per returned host and never on exhaustion, picks hosts[(offset+index)%len]; NewQueryPlan snapshots the published slice and takes its offset by an atomic add; the published slice is never written through (fresh slice + atomic.Value.Store under the mutex), Remove drops the host with the matching key; counter and slice only accessed atomically.",
+  note="Not covered: fairness counts, uint32 wrap, schedules; only the discipline that makes concurrent use safe is decided.",
+  ref="DESIGN.md §4 C15"),
 }
 
 NOT_YET = "check not built yet in this round (see DESIGN.md §4 for the planned structural rules)"
